@@ -1619,7 +1619,7 @@ theorem move_data {s : State} (hm : MetaOK s) (h : DataInv s) {v i tv ti : Nat} 
   · intro v' i' sl' h1 hd
     rcases hslot v' i' sl' h1 with ⟨_, _, rfl⟩ | ⟨e1, e2, _, e4⟩ | h3
     · simp [setSec, hdur] at hd
-    · rw [e1, e2]; exact h.dirtyChanged v i sl0 hs0 (e4 ▸ hd)
+    · rw [e1]; exact h.dirtyChanged v i sl0 hs0 (e4 ▸ hd)
     · exact h.dirtyChanged v' i' sl' h3 hd
 
 theorem moveOne_data {s : State} (hm : MetaOK s) (h : DataInv s) {v i : Nat} {r : SectorId} (mv : Move) (hh : holdsAt s.vols v i r)
@@ -1745,5 +1745,323 @@ theorem migrateGo_data {v start : Nat} (moves : List Move) : ∀ {s : State} (cu
 
 theorem migrate_data {s : State} (hm : MetaOK s) (h : DataInv s) (v start : Nat) (moves : List Move) (hs : ∀ p ∈ s.pending, p.v ≠ v) :
     DataInv (migrate s v start moves).1 := migrateGo_data moves _ _ _ hm h hs
+
+/-! ## VolumeManager orchestration -/
+
+theorem vmAddVolume_inv {s : State} (h : Inv s) (id n : Nat) : Inv (vmAddVolume s id n).1 := by
+  simp only [vmAddVolume]
+  split
+  · exact h
+  have ha : Inv (addVolume s id false).1 := ⟨addVolume_ok h.1 id false, addVolume_data h.2 id false⟩
+  generalize addVolume s id false = res at ha
+  obtain ⟨s1, r⟩ := res
+  cases r <;> first
+    | exact ha
+    | exact ⟨grow_ok (setAvailable_ok ha.1 id true) id n, grow_data (setAvailable_ok ha.1 id true) (setAvailable_data ha.2 id true) id n⟩
+
+theorem vmResize_inv {s : State} (h : Inv s) (v n : Nat) (moves : List Move) (hs : ∀ p ∈ s.pending, p.v ≠ v) :
+    Inv (vmResize s v n moves).1 := by
+  simp only [vmResize]
+  split
+  · exact h
+  rename_i vol hv
+  split
+  · have h1 : Inv (if (!vol.readOnly) = true then setReadOnly s v true else s) := by
+      split
+      · exact ⟨setReadOnly_ok h.1 v true, setReadOnly_data h.2 v true⟩
+      · exact h
+    have hp1 : (if (!vol.readOnly) = true then setReadOnly s v true else s).pending = s.pending := by split <;> rfl
+    generalize (if (!vol.readOnly) = true then setReadOnly s v true else s) = s1 at h1 hp1
+    have h2 : Inv (migrate s1 v n moves).1 :=
+      ⟨migrate_ok h1.1 v n moves (by rw [hp1]; exact hs), migrate_data h1.1 h1.2 v n moves (by rw [hp1]; exact hs)⟩
+    generalize migrate s1 v n moves = res at h2
+    obtain ⟨s2, r⟩ := res
+    simp only at h2 ⊢
+    have key : ∀ (x : State × Res), Inv x.1 →
+        Inv (if (!vol.readOnly) = true then setReadOnly x.1 v false else x.1) := by
+      intro x hx
+      split
+      · exact ⟨setReadOnly_ok hx.1 v false, setReadOnly_data hx.2 v false⟩
+      · exact hx
+    apply key
+    split
+    · exact ⟨shrink_ok h2.1 v n, shrink_data h2.1 h2.2 v n⟩
+    · exact h2
+    · exact h2
+  · split
+    · exact ⟨grow_ok h.1 v n, grow_data h.1 h.2 v n⟩
+    · exact h
+
+theorem vmRemove_inv {s : State} (h : Inv s) (v : Nat) (force : Bool) (moves : List Move) (hs : ∀ p ∈ s.pending, p.v ≠ v) :
+    Inv (vmRemove s v force moves).1 := by
+  simp only [vmRemove]
+  split
+  · exact h
+  have h1 : Inv (setReadOnly s v true) := ⟨setReadOnly_ok h.1 v true, setReadOnly_data h.2 v true⟩
+  have h2 : Inv (migrate (setReadOnly s v true) v 0 moves).1 :=
+    ⟨migrate_ok h1.1 v 0 moves (by rw [setReadOnly_pending]; exact hs), migrate_data h1.1 h1.2 v 0 moves (by rw [setReadOnly_pending]; exact hs)⟩
+  have hp2 : (migrate (setReadOnly s v true) v 0 moves).1.pending = s.pending := by
+    simp only [migrate]; rw [migrateGo_pending]; rfl
+  generalize migrate (setReadOnly s v true) v 0 moves = res at h2 hp2
+  obtain ⟨s2, r⟩ := res
+  simp only at h2 hp2 ⊢
+  split
+  · split
+    · exact h2
+    · refine ⟨removeVolume_ok h2.1 v force ?_, removeVolume_data h2.1 h2.2 v force⟩
+      intro _ p hp
+      rw [hp2] at hp
+      exact hs p hp
+  · exact h2
+
+/-! ## the partial theorem -/
+
+theorem step_inv (f : Facts) {s : State} (h : Inv s) (op : Op) (hs : Safe s op) : Inv (step f s op).1 := by
+  obtain ⟨hm, hd⟩ := h
+  obtain ⟨hs8, hs2⟩ := hs
+  refine ⟨step_ok f hm op hs8, ?_⟩
+  cases op with
+  | addVolume id ro => exact addVolume_data hd id ro
+  | grow v n => exact grow_data hm hd v n
+  | shrink v n => exact shrink_data hm hd v n
+  | removeVolume v force => exact removeVolume_data hm hd v force
+  | setReadOnly v b => exact setReadOnly_data hd v b
+  | setAvailable v b => exact setAvailable_data hd v b
+  | reserve w r b ch => exact reserve_data hm hd w r b ch hs2
+  | finish w ok => exact finish_data hm hd w ok hs2
+  | revise1 c chs => exact revise1_data hd c chs hs2
+  | revise2 c roots => exact revise2_data hd c roots hs2
+  | addTemp r exp => exact addTemp_data hd r exp hs2
+  | addTemps l => exact addTemps_data hd l hs2
+  | addC1 id wEnd => exact addC1_data hd id wEnd
+  | addC2 id expH => exact addC2_data hd id expH
+  | setStatus1 id st => exact setStatus1_data hd id st
+  | setStatus2 id st => exact setStatus2_data hd id st
+  | expire1 ht => exact expire1_data f hd ht
+  | expire2 ht => exact expire2_data f hd ht
+  | expireTemp ht => exact expireTemp_data hd ht
+  | tick => exact tick_data hd
+  | prune => exact prune_data hm hd
+  | removeSector r data => exact removeSector_data hm hd r data hs8
+  | migrate v start moves => exact migrate_data hm hd v start moves hs8
+  | read r => exact read_data hm hd r hs2
+  | newBuf c => exact newBuf_data hd c
+  | mutate b c => exact mutate_data hd b c hs2
+  | sync => exact sync_data hd
+  | resizeCache n => exact resizeCache_data hd n
+  | crash lost => exact crash_data hd lost hs2.1 hs2.2
+  | restart => exact restart_data hd
+  | vmAddVolume id n => exact (vmAddVolume_inv ⟨hm, hd⟩ id n).2
+  | vmResize v n moves => exact (vmResize_inv ⟨hm, hd⟩ v n moves hs8).2
+  | vmRemove v force moves => exact (vmRemove_inv ⟨hm, hd⟩ v force moves hs8).2
+
+/-- every step of the history satisfies `Safe` in the state it runs in -/
+def SafeRun (f : Facts) : State → List Op → Prop
+  | _, [] => True
+  | s, op :: ops => Safe s op ∧ SafeRun f (step f s op).1 ops
+
+theorem init_inv (n : Nat) : Inv (init n) := by
+  refine ⟨init_ok n, ⟨?_, ?_, ?_, ?_, ?_, ?_, ?_, ?_, ?_⟩⟩ <;>
+    simp [init, slotAt, findVol, referenced, refd1, refd2, refdT, located]
+
+/-- **C02 (partial).** The read-intact invariant holds in every state reachable by a history all of
+whose steps satisfy `Safe` — any number of volumes, any cache size, any interleaving of writers at
+`StoreSector`'s critical sections, migrations with failures at any index, prune, grow/shrink/remove,
+restarts and crashes. The schedules `Safe` excludes are listed at its definition; for four of them
+the current code violates the property (witnesses below). -/
+theorem C02_read_intact_partial (f : Facts) (ops : List Op) : ∀ (s : State), Inv s → SafeRun f s ops → Inv (run f s ops) := by
+  induction ops with
+  | nil => intro s h _; exact h
+  | cons op ops ih =>
+    intro s h hs
+    simp only [run, List.foldl_cons]
+    exact ih _ (step_inv f h op hs.1) hs.2
+
+theorem C02_read_intact_partial_init (f : Facts) (cache : Nat) (ops : List Op) (hs : SafeRun f (init cache) ops) :
+    Inv (run f (init cache) ops) := C02_read_intact_partial f ops _ (init_inv cache) hs
+
+/-- **What the invariant buys.** A referenced root that was not dropped by a forced removal /
+`RemoveSector` is served with its own data — from the cache or from a slot that is fsynced. -/
+theorem C02_read_of_inv {s : State} (h : Inv s) (r : SectorId) (href : referenced s r = true) (hl : r ∉ s.lostNow) :
+    readContent s r = some (.dataOf r) ∧
+      ∀ v i sl, slotAt s.vols v i = some sl → sl.sec = some r → sl.content = .dataOf r ∧ sl.durable = true := by
+  obtain ⟨hm, hd⟩ := h
+  rcases hd.refSafe r href with h1 | ⟨hloc, hns, hnp⟩
+  · exact absurd h1 hl
+  constructor
+  · simp only [readContent, Hostd.Volumes.read]
+    cases hc : cacheGet r s.cache with
+    | some b => simpa using hd.cacheGood _ (cacheGet_mem hc)
+    | none =>
+      have hst := hd.locStored r hloc
+      simp only [hst, Bool.not_true, Bool.false_eq_true, if_false]
+      obtain ⟨v, i, hfl⟩ := findLoc_of_located hloc
+      obtain ⟨sl, hsl, hsec⟩ := findLoc_spec hm.core.ids hfl
+      simp only [hfl, hsl]
+      simp [content_of_holds hd hsl hsec hnp]
+  · intro v i sl hsl hsec
+    refine ⟨content_of_holds hd hsl hsec hnp, ?_⟩
+    cases hdur : sl.durable with
+    | true => rfl
+    | false =>
+      rcases hd.slotDur v i sl r hsl hsec hdur with h2 | ⟨p, hp, _, _, e⟩
+      · exact absurd h2 hns
+      · exact absurd ⟨p, hp, e⟩ hnp
+
+/-! ## the hypotheses are satisfiable, the conclusion is not vacuous -/
+
+/-- upload (write, Sync, append to a contract), restart, read, resize with a migration, prune, crash -/
+def goodOps : List Op :=
+  [.vmAddVolume 1 3, .vmAddVolume 2 2, .addC1 1 40, .newBuf (.dataOf 1), .reserve 0 1 0 (some (1, 2)), .finish 0 true, .sync,
+   .revise1 1 [.append 1], .restart, .read 1,
+   .vmResize 1 2 [{ fromI := 2, toV := 2, toI := 0, inj := 0, ok := true }], .tick, .prune, .read 1]
+
+example : SafeRun Facts.code (init 4) goodOps := by
+  simp only [goodOps, SafeRun, Safe, C08.Safe, isPending, Committable, newRoots]
+  decide
+
+example : readContent (run Facts.code (init 4) goodOps) 1 = some (.dataOf 1) := by decide
+example : located (run Facts.code (init 4) goodOps).vols 1 = true ∧ referenced (run Facts.code (init 4) goodOps) 1 = true := by decide
+
+/-! ## counterexamples: the schedules `Safe` excludes and the CURRENT CODE mishandles -/
+
+/-- (ii) `ReadSector(1)` → patch the returned buffer in place → `Write(root 2, same buffer)` with the
+sector cache enabled (rhp/v3 `executeUpdateSector`, rhp/v2 `rpcWrite` update) -/
+def aliasOps : List Op :=
+  [.vmAddVolume 1 3, .addC1 1 40, .newBuf (.dataOf 1), .reserve 0 1 0 (some (1, 0)), .finish 0 true, .sync,
+   .revise1 1 [.append 1], .restart, .read 1, .mutate 1 (.dataOf 2), .reserve 0 2 1 (some (1, 1)), .finish 0 true, .sync]
+
+theorem C02_cache_alias_witness :
+    referenced (run Facts.code (init 4) aliasOps) 1 = true ∧ (run Facts.code (init 4) aliasOps).lostNow = [] ∧
+      readContent (run Facts.code (init 4) aliasOps) 1 = some (.dataOf 2) := by decide
+
+/-- the same calls with the cache disabled are fine -/
+example : readContent (run Facts.code (init 0) aliasOps) 1 = some (.dataOf 1) := by decide
+
+/-- (iii) the process dies between `StoreSector`'s slot commit and the data write; the re-upload of
+the same root takes the `exists` fast path -/
+def crashReuploadOps : List Op :=
+  [.vmAddVolume 1 3, .addC1 1 40, .newBuf (.dataOf 1), .reserve 1 1 0 (some (1, 0)), .crash [],
+   .newBuf (.dataOf 1), .reserve 0 1 1 none, .sync, .revise1 1 [.append 1]]
+
+theorem C02_crash_reupload_witness :
+    referenced (run Facts.code (init 0) crashReuploadOps) 1 = true ∧ (run Facts.code (init 0) crashReuploadOps).lostNow = [] ∧
+      readContent (run Facts.code (init 0) crashReuploadOps) 1 = some .zero := by decide
+
+/-- second upload acknowledged by the `exists` fast path, then the first writer's data write fails -/
+def twoWritersOps : List Op :=
+  [.vmAddVolume 1 3, .addC1 1 40, .newBuf (.dataOf 1), .reserve 1 1 0 (some (1, 0)),
+   .newBuf (.dataOf 1), .reserve 0 1 1 none, .finish 1 false, .sync, .revise1 1 [.append 1]]
+
+theorem C02_two_writers_witness :
+    referenced (run Facts.code (init 0) twoWritersOps) 1 = true ∧ (run Facts.code (init 0) twoWritersOps).lostNow = [] ∧
+      readContent (run Facts.code (init 0) twoWritersOps) 1 = none := by decide
+
+/-- `VolumeManager.StoreSector`: write + temp reference without fsync; power loss -/
+def unsyncedTempOps : List Op :=
+  [.vmAddVolume 1 3, .newBuf (.dataOf 1), .reserve 0 1 0 (some (1, 0)), .finish 0 true, .addTemp 1 60, .crash [(1, 0)]]
+
+theorem C02_unsynced_temp_witness :
+    referenced (run Facts.code (init 0) unsyncedTempOps) 1 = true ∧ (run Facts.code (init 0) unsyncedTempOps).lostNow = [] ∧
+      readContent (run Facts.code (init 0) unsyncedTempOps) 1 = some .garbage := by decide
+
+/-! ## separate lemmas -/
+
+/-- migration preserves the invariant whatever the callbacks do: any number of sectors, failure
+before the copy (`inj = 1`), after copy and fsync (`inj = 2`), or none, at every index -/
+theorem C02_migration_preserves_inv {s : State} (h : Inv s) (v start : Nat) (moves : List Move)
+    (hs : ∀ p ∈ s.pending, p.v ≠ v) : Inv (migrate s v start moves).1 :=
+  ⟨migrate_ok h.1 v start moves hs, migrate_data h.1 h.2 v start moves hs⟩
+
+/-- shrinking never drops an occupied slot -/
+theorem C02_shrink_keeps_occupied {s : State} (v n v' i' : Nat) (r : SectorId) (hh : holdsAt s.vols v' i' r) :
+    holdsAt (shrink s v n).1.vols v' i' r := by
+  simp only [shrink]
+  split
+  · exact hh
+  split
+  · exact hh
+  rename_i vol hv
+  split
+  · exact hh
+  rename_i hocc
+  split
+  · exact hh
+  split
+  · exact hh
+  have hocc0 : occ (vol.slots.drop n) = 0 := by simpa using hocc
+  obtain ⟨sl, h1, h2⟩ := hh
+  refine ⟨sl, ?_, h2⟩
+  show slotAt (updVol v (fun x => { x with slots := x.slots.take n, total := n }) s.vols) v' i' = some sl
+  rw [slotAt_updVol v v' i' (fun x : Volume => { x with slots := x.slots.take n, total := n }) (fun _ => rfl)]
+  by_cases e : v' = v
+  · subst e
+    obtain ⟨vol', hv', hs'⟩ := slotAt_split h1
+    rw [hv] at hv'; cases hv'
+    simp only [if_true, hv, List.getElem?_take]
+    have hi : i' < n := by
+      apply Classical.byContradiction; intro hge
+      have hge : n ≤ i' := Nat.le_of_not_lt hge
+      have hmem : sl ∈ vol.slots.drop n := by
+        have : (vol.slots.drop n)[i' - n]? = some sl := by
+          rw [List.getElem?_drop]; rw [show n + (i' - n) = i' by omega]; exact hs'
+        exact List.mem_of_getElem? this
+      have : 0 < occ (vol.slots.drop n) := by
+        simp only [occ]; rw [List.countP_pos_iff]; exact ⟨sl, hmem, by simp [isOcc, h2]⟩
+      omega
+    simp [hi, hs']
+  · simp only [e, if_false]; exact h1
+
+/-- prune only clears slots of sectors that are neither referenced nor recently accessed -/
+theorem C02_prune_only_unreferenced {s : State} (hm : MetaOK s) (v i : Nat) (r : SectorId) (hh : holdsAt s.vols v i r)
+    (hk : referenced s r = true ∨ r ∈ s.recent) : holdsAt (prune s).1.vols v i r := by
+  rw [prune_vols hm.core, holdsAt_pruned]
+  refine ⟨hh, ?_⟩
+  simp only [prunable]
+  rcases hk with hk | hk
+  · simp [hk]
+  · have : s.recent.contains r = true := by simpa using hk
+    simp [this]
+    intro _; exact hk
+
+/-- `RemoveSector` counts exactly the one location it drops -/
+theorem C02_lost_counted_removeSector (s : State) (r : SectorId) (data : Bool) (h : (removeSector s r data).2 = .ok) :
+    (removeSector s r data).1.m.lost = s.m.lost + 1 ∧ r ∈ (removeSector s r data).1.lostNow := by
+  by_cases h1 : ¬ r ∈ s.stored
+  · simp [removeSector, h1] at h
+  have h1 : r ∈ s.stored := Classical.not_not.mp h1
+  cases h2 : findLoc s.vols r with
+  | none => simp [removeSector, h1, h2] at h
+  | some p =>
+    obtain ⟨v, i⟩ := p
+    cases h3 : findVol v s.vols with
+    | none => simp [removeSector, h1, h2, h3] at h
+    | some vol =>
+      by_cases h4 : vol.used = 0
+      · simp [removeSector, h1, h2, h3, h4] at h
+      by_cases h5 : s.m.physical = 0
+      · simp [removeSector, h1, h2, h3, h4, h5] at h
+      simp [removeSector, h1, h2, h3, h4, h5]
+
+/-- `Store.RemoveVolume` counts every occupied location of the volume as lost — and a removal
+without `force` only succeeds when there is none -/
+theorem C02_lost_counted_removeVolume (s : State) (v : Nat) (force : Bool) (vol : Volume) (hv : findVol v s.vols = some vol)
+    (h : (removeVolume s v force).2 = .ok) :
+    (removeVolume s v force).1.m.lost = s.m.lost + occ vol.slots ∧ (force = false → occ vol.slots = 0) ∧
+      (∀ r ∈ occList vol.slots, r ∈ (removeVolume s v force).1.lostNow) := by
+  by_cases h1 : (!force && decide (occ vol.slots > 0)) = true
+  · simp [removeVolume, hv, h1] at h
+  by_cases h2 : s.m.physical < occ vol.slots
+  · simp [removeVolume, hv, h1, h2] at h
+  by_cases h3 : s.m.total < vol.slots.length
+  · simp [removeVolume, hv, h1, h2, h3] at h
+  refine ⟨by simp [removeVolume, hv, h1, h2, h3], ?_, ?_⟩
+  · intro hf
+    subst hf
+    simp at h1
+    omega
+  · intro r hr
+    simp [removeVolume, hv, h1, h2, h3]
+    exact Or.inl hr
 
 end Hostd.Props.C02
